@@ -77,3 +77,71 @@ func TestVerifWitness_DS1(t *testing.T) {
 		t.Fatalf("Rows(f) of a field that never held a bit (after a clear-import of rows 3,5): before restart %v, after restart %v, want none", before.Rows, after.Rows)
 	}
 }
+
+// DS2: a set/mutex field created with cache type "none" and cache size 0 kept
+// the default cache size 50000 in its options until the next restart, where
+// applyOptions reset it to 0: Schema() differs across a clean restart.
+func TestVerifWitness_DS2(t *testing.T) {
+	cmd := test.MustRunCommand()
+	defer cmd.Close()
+	cmd.MustCreateIndex(t, "i", pilosa.IndexOptions{})
+	cmd.MustCreateField(t, "i", "m", pilosa.OptFieldTypeMutex(pilosa.CacheTypeNone, 0))
+	opts := func() pilosa.FieldOptions {
+		f, err := cmd.API.Field(context.Background(), "i", "m")
+		if err != nil {
+			t.Fatal(err)
+		}
+		return f.Options()
+	}
+	before := opts()
+	if err := cmd.Reopen(); err != nil {
+		t.Fatal(err)
+	}
+	if after := opts(); before != after {
+		t.Fatalf("options of a mutex field created with cache (none, 0) changed across restart:\n before %+v\n after  %+v", before, after)
+	}
+}
+
+// DS3: fragment.unprotectedSetRow returned right after removing the old row
+// when the source row had no segment for the shard, skipping the row-cache
+// invalidation and the snapshot: Store(<empty row>, f=2) emptied row 2 in
+// memory only, and the old bits were back after a clean restart.
+func TestVerifWitness_DS3(t *testing.T) {
+	cmd := test.MustRunCommand()
+	defer cmd.Close()
+	cmd.MustCreateIndex(t, "i", pilosa.IndexOptions{})
+	cmd.MustCreateField(t, "i", "f", pilosa.OptFieldTypeSet("ranked", 100))
+	cmd.MustCreateField(t, "i", "g", pilosa.OptFieldTypeSet("ranked", 100))
+	vgsQuery(t, cmd, "i", "Set(5, f=2)")
+	if cols := vgsQuery(t, cmd, "i", "Row(f=2)")[0].(*pilosa.Row).Columns(); len(cols) != 1 {
+		t.Fatalf("Row(f=2) = %v, want [5]", cols)
+	}
+	vgsQuery(t, cmd, "i", "Store(Row(g=9), f=2)") // g has no data at all
+	before := vgsQuery(t, cmd, "i", "Row(f=2)")[0].(*pilosa.Row).Columns()
+	if err := cmd.Reopen(); err != nil {
+		t.Fatal(err)
+	}
+	after := vgsQuery(t, cmd, "i", "Row(f=2)")[0].(*pilosa.Row).Columns()
+	if len(before) != 0 || len(after) != 0 {
+		t.Fatalf("Row(f=2) after Store(Row(g=9), f=2) with g empty: before restart %v, after restart %v, want none", before, after)
+	}
+}
+
+// DS4: fragment.row handed the cached *Row (writable segment) to every caller,
+// and query results adopt its segments: writing to a query result with the
+// exported Row.SetBit changed what later queries returned.
+func TestVerifWitness_DS4(t *testing.T) {
+	cmd := test.MustRunCommand()
+	defer cmd.Close()
+	cmd.MustCreateIndex(t, "i", pilosa.IndexOptions{})
+	cmd.MustCreateField(t, "i", "f", pilosa.OptFieldTypeSet("ranked", 100))
+	vgsQuery(t, cmd, "i", "Set(1, f=1)")
+	kept := vgsQuery(t, cmd, "i", "Row(f=1)")[0].(*pilosa.Row)
+	kept.SetBit(99) // the caller's own copy of the answer
+	if got := vgsQuery(t, cmd, "i", "Row(f=1)")[0].(*pilosa.Row).Columns(); len(got) != 1 || got[0] != 1 {
+		t.Fatalf("Row(f=1) after SetBit(99) on an earlier query result = %v, want [1]", got)
+	}
+	if got := vgsQuery(t, cmd, "i", "Count(Row(f=1))")[0]; fmt.Sprint(got) != "1" {
+		t.Fatalf("Count(Row(f=1)) after SetBit(99) on an earlier query result = %v, want 1", got)
+	}
+}
